@@ -667,6 +667,10 @@ func (m *Model) onePath(name string, op int64, o *absint.Oracle) *Path {
 		}
 		if callee == m.DelFn {
 			addEvent("call", strings.Replace(sf, callee.Name(), "deleteContext", 1), args, nil, site)
+			if callee.Signature.Results().Len() == 1 {
+				// the free list handed back with the released contexts on it
+				return &absint.Sym{Op: "released", Args: args, T: callee.Signature.Results().At(0).Type()}, true
+			}
 			return nil, true
 		}
 		return nil, false
@@ -695,6 +699,13 @@ func (m *Model) onePath(name string, op int64, o *absint.Oracle) *Path {
 			k := absint.Key(s)
 			if strings.Contains(k, "CR.CS") && strings.HasSuffix(k, ",IP)") {
 				return instrSym, true
+			}
+			// a context taken out of a loop-carried slice of contexts: a recycled one
+			if types.Identical(t, ctxPtrT) && strings.Contains(k, "LOOPVAR.") {
+				c := mkCtx("FREECTX", absint.NewVar("FREECTX.m", memT), absint.NewVar("FREECTX.parent", ctxPtrT))
+				var r absint.Val = &absint.Ptr{Cell: c}
+				addEvent("call", "typeassert *context", []absint.Val{s}, r, site)
+				return r, true
 			}
 			return &absint.Sym{Op: "deref", Args: []absint.Val{s}, T: t}, true
 		}
@@ -755,6 +766,13 @@ func (m *Model) onePath(name string, op int64, o *absint.Oracle) *Path {
 	regs[m.VarOf["ip"]] = absint.NewVar("IP", intT)
 	regs[m.VarOf["tmp"]] = absint.NewVar("TMP", m.VarOf["tmp"].Type())
 	for _, ins := range m.Header.Instrs {
+		// any further loop variable (a free list kept in a slice, a counter) is
+		// unknown at the start of a trip
+		if ph, isPhi := ins.(*ssa.Phi); isPhi {
+			if _, set := regs[ph]; !set {
+				regs[ph] = absint.NewVar("LOOPVAR."+ph.Comment, ph.Type())
+			}
+		}
 		// other header values (len(*cs) test) are not needed in the body
 		if v, ok := ins.(ssa.Value); ok {
 			if _, isPhi := ins.(*ssa.Phi); !isPhi {
